@@ -38,6 +38,8 @@ pub fn instantiate(
         )));
     }
 
+    commands::validate_epoch_duration(&msg.epoch_config)?;
+
     ADMIN.set(deps.branch(), Some(info.sender))?;
     EPOCH.save(deps.storage, &msg.start_epoch)?;
     CONFIG.save(
